@@ -62,12 +62,12 @@ PROPS = {
         ],
     },
     "C13": {
-        "lean_modules": ["DocsModel.Props.C13"],
+        "lean_modules": ["DocsModel.Props.C13", "DocsModel.Props.C13Codec"],
         "trusted_base": COMMON_TRUST + ["redb tables are modelled as sorted lists whose range() is the in-order filter by the bounds (element-wise tuple comparison, lexicographic byte strings); redb itself is not verified",
             "postcard is modelled (LEB128 varints of at most 10 bytes, raw 32-byte arrays, trailing bytes ignored)"],
         "assumptions": [
             "ids are 32 bytes; timestamps fit in 64 bits",
-            "the equality decode(encode(h, None)) = h for whole head sets is validated by the correspondence check (oracle line hkept); the Lean file proves the item-list round trip, the limit laws and the prefix/maximality law of the size-limited encoder",
+            "decode(encode(h, None)) = h is proved for every head map with 32-byte authors and 64-bit timestamps (Heads.decode_encode); the size-limited encoder is proved to keep a prefix of the newest-first list that is maximal under the limit and never to exceed it; the specification line hkept compares the real encoder/decoder with that on every run",
         ],
     },
     "C15": {
@@ -154,7 +154,7 @@ PROPS = {
         ],
     },
     "C09": {
-        "lean_modules": ["DocsModel.Props.C09"],
+        "lean_modules": ["DocsModel.Props.C09", "DocsModel.Props.C09Chunks"],
         "trusted_base": COMMON_TRUST + [
             "postcard 1.1.3 and the serde derives are modelled (layout read from the sources and confirmed by the differential check), not verified; tokio_util FramedRead is modelled as 'append chunk, decode while possible'",
             "hook H3 (export of the private frame codec)",
